@@ -1,2 +1,18 @@
 import QG.Props.C02
+#print axioms QG.C02.sem_level1
+#print axioms QG.C02.level1_no_adjacent_same
+#print axioms QG.C02.sem_process_snippet
+#print axioms QG.C02.sem_level2
+#print axioms QG.C02.sem_level3
+#print axioms QG.C02.sem_level4
+#print axioms QG.C02.optimize_sem
 #print axioms QG.C02.optimize_level_out_of_range
+#print axioms QG.C02.optimize_clamp
+#print axioms QG.C02.optimize_sem_register
+#print axioms QG.C02.create_sparse_spec_one
+#print axioms QG.C02.create_sparse_spec_two
+#print axioms QG.C02.create_dense_spec_one
+#print axioms QG.C02.create_dense_spec_two
+#print axioms QG.C02.apply_item_spec
+#print axioms QG.C02.binary_spec
+#print axioms QG.C02.binary_empty
